@@ -19,6 +19,7 @@ CONSTANTS
   EmitDyn = FALSE
   MaxHist = 3
   MaxReorders = 1
+  NewKs <- EmptySet
   NameOrder <- NameOrderA
   BuildCfgs <- BuildCfgsA
   IntegrCfgs <- IntegrCfgsNone
